@@ -227,6 +227,151 @@ def real_tokens(repo, sec, log):
     return ss, span
 
 
+
+# ----------------------------------------------------------------------------- stub / SpecImpl consistency
+# A stub of an operator-trait method carries the proved `ensures`; its precondition lives in the `*SpecImpl::*_req`
+# block that each unit writes next to the impl. A weaker `_req` in the using unit would apply the proved contract
+# outside the domain it was proved for, so the block (and every spec fn it mentions) must be token-identical to the
+# one in the proving unit.
+
+def _flat_text(secs):
+    out = []
+    for sec in secs:
+        k = sec["kind"]
+        if k == "text":
+            out.append(sec["text"])
+        elif k == "include":
+            with open(os.path.join(CONTRACTS, sec["path"])) as f:
+                inc = f.read()
+            out.append(_flat_text(parse_sections(inc if inc.endswith("\n") else inc + "\n", sec["path"])))
+        elif k == "extract":
+            out.append("/*@@extract %s@@*/\n" % section_label(sec))
+            out.append("".join(t for _, t in rtok.split_annotated(sec["annot"])))
+        elif k == "stub":
+            out.append("/*@@stub %s@@*/\n" % sec["ref"])
+    return "".join(out)
+
+
+_flat_cache = {}
+
+
+def _unit_flat(uname):
+    if uname not in _flat_cache:
+        _flat_cache[uname] = _flat_text(unit_sections(uname))
+    return _flat_cache[uname]
+
+
+def _enclosing_impl_header(text, marker):
+    """Header tokens of the `impl ... {` that directly encloses the position of `marker` (or None)."""
+    pos = text.find(marker)
+    if pos < 0:
+        return None
+    toks = rtok.tokenize(text[:pos])
+    ss = rtok.strs(toks)
+    depth = 0
+    k = len(ss) - 1
+    while k >= 0:
+        if ss[k] in ("}", ")", "]"):
+            depth += 1
+        elif ss[k] in ("{", "(", "["):
+            if depth == 0:
+                if ss[k] != "{":
+                    return None
+                # walk back to the start of the item header
+                j = k - 1
+                while j >= 0 and ss[j] not in (";", "}", "{"):
+                    j -= 1
+                hdr = ss[j + 1:k]
+                while hdr and hdr[0] != "impl":
+                    hdr = hdr[1:]
+                return hdr if hdr and hdr[0] == "impl" else None
+            depth -= 1
+        k -= 1
+    return None
+
+
+def _find_block(text, header):
+    """Tokens of the first item `header { ... }` in text (or None)."""
+    ss = rtok.strs(rtok.tokenize(text))
+    toks = rtok.tokenize(text)
+    n = len(header)
+    for i in range(len(ss) - n):
+        if ss[i:i + n] == header and ss[i + n] == "{":
+            e = rtok.match_close(toks, i + n)
+            return ss[i:e + 1]
+    return None
+
+
+def _spec_fn_defs(text):
+    ss = rtok.strs(rtok.tokenize(text))
+    toks = rtok.tokenize(text)
+    defs = {}
+    for i in range(len(ss) - 3):
+        if ss[i] == "spec" and ss[i + 1] == "fn":
+            name = ss[i + 2]
+            k = i + 3
+            while k < len(ss) and ss[k] != "{" and ss[k] != ";":
+                if ss[k] in ("(", "["):
+                    k = rtok.match_close(toks, k)
+                k += 1
+            if k < len(ss) and ss[k] == "{":
+                e = rtok.match_close(toks, k)
+                defs.setdefault(name, []).append(ss[i:e + 1])
+    return defs
+
+
+def check_stub_specimpl(ref, woven_text):
+    uname, label = ref.split("/")
+    src = _unit_flat(uname)
+    hdr = _enclosing_impl_header(src, "/*@@extract %s@@*/" % label)
+    if not hdr or "for" not in hdr:
+        return
+    # `impl [<..>] Trait<Args> for Type`  ->  `impl [<..>] TraitSpecImpl<Args> for Type`
+    k = 1
+    if hdr[k] == "<":
+        d = 0
+        while True:
+            if hdr[k] == "<":
+                d += 1
+            elif hdr[k] == ">":
+                d -= 1
+                if d == 0:
+                    break
+            k += 1
+        k += 1
+    trait_pos = k
+    # path prefix (a :: b :: Trait)
+    while trait_pos + 2 < len(hdr) and hdr[trait_pos + 1] == "::":
+        trait_pos += 2
+    trait = hdr[trait_pos]
+    variants = []
+    for prefix in ([], ["vstd", "::", "std_specs", "::", "ops", "::"], ["vstd", "::", "std_specs", "::", "convert", "::"], ["vstd", "::", "std_specs", "::", "cmp", "::"]):
+        variants.append(hdr[:k] + prefix + [trait + "SpecImpl"] + hdr[trait_pos + 1:])
+    blk = None
+    for v in variants:
+        blk = _find_block(src, v)
+        if blk:
+            break
+    if not blk:
+        return          # no SpecImpl in the proving unit: the impl has no precondition there (Verus default: none)
+    mine = None
+    for v in variants:
+        mine = _find_block(woven_text, v)
+        if mine:
+            break
+    def body(b):
+        return b[b.index("{"):]
+    if mine is None:
+        raise UnitError("stub %s: the proving unit declares %s but this unit does not" % (ref, " ".join(variants[0])))
+    if body(mine) != body(blk):
+        raise UnitError("stub %s: `%s` differs from the block in the proving unit %s (a different *_req would apply the proved contract outside its proved domain)" % (ref, " ".join(variants[0]), uname))
+    src_defs = _spec_fn_defs(src)
+    my_defs = _spec_fn_defs(woven_text)
+    for i, t in enumerate(blk[:-1]):
+        if blk[i + 1] == "(" and t in src_defs and (i == 0 or blk[i - 1] != "fn") and t not in ("wf", "v", "wfi", "iv", "dg", "sg", "mag", "mp"):
+            if t not in my_defs or my_defs[t][0] != src_defs[t][0]:
+                raise UnitError("stub %s: spec fn `%s` used by its precondition is defined differently here than in unit %s" % (ref, t, uname))
+
 def build(name, repo, outdir):
     """Weave unit `name`. Returns dict(path, functions=[...], rewrites, assumptions, linemap)."""
     out = []
@@ -269,6 +414,9 @@ def build(name, repo, outdir):
 
     emit_sections(unit_sections(name), True)
     text = "".join(out)
+    for fn in funcs:
+        if fn["kind"] == "stub":
+            check_stub_specimpl(fn["label"], text)
     os.makedirs(outdir, exist_ok=True)
     path = os.path.join(outdir, name + ".rs")
     with open(path, "w") as f:
